@@ -6,12 +6,14 @@ Driver command `layoutcert` (property C14, Layout-rule round trip).
 
   layoutcert <input-hex> #<matrix>
       → layoutcert none                                        the loaded table has no Layout rule
-      → layoutcert ls=<state> static=<b> nottoken=<b> idem=<b> failstays=<b> ok=<b>
+      → layoutcert ls=<state> auto=<b> static=<b> nottoken=<b> idem=<b> failstays=<b> old=<b>
 
-evaluates the hypotheses of `C14_roundtrip_layout` (`Model/LayoutCert.lean`) for the loaded dump, this
-input and the recognizer matrix the harness printed for it, with the same environment and the same
-fuel the `lr` command uses.  `ok` is `LayoutCert.check`; the four parts are reported separately so
-that a failing round trip can be attributed to the sub-condition that is false for it.
+`auto` is `LayoutCert.autoOk`, the only hypothesis of `C14_roundtrip_layout` besides the table
+certificates (a property of the table; the input is not looked at).  The other fields are the
+per-offset conditions of `Model/LayoutCert.lean` for this input and the recognizer matrix the harness
+printed for it (same environment and fuel as the `lr` command): `old` = `LayoutCert.check` = all of
+them, i.e. the input is one on which the loop BEFORE the repairs of C14-N1/N2 was lossless too;
+`old=0` marks the inputs that exercise the repaired code paths (reported as coverage only).
 -/
 namespace Rustemo
 namespace LayoutRT
@@ -42,7 +44,8 @@ def handleLayoutCert (d : Dump) (rest : String) : String :=
         let nt := LayoutCert.notToken env ls fuel
         let id := LayoutCert.idempotent env ls fuel
         let fs := LayoutCert.failStays env ls fuel
-        s!"layoutcert ls={ls} static={bit st} nottoken={bit nt} idem={bit id} failstays={bit fs} ok={bit (st && nt && id && fs)}"
+        let au := LayoutCert.autoOk env.g env.t ls
+        s!"layoutcert ls={ls} auto={bit au} static={bit st} nottoken={bit nt} idem={bit id} failstays={bit fs} old={bit (st && nt && id && fs)}"
     | _ => "bad-request"
   | _ => "bad-request"
 
